@@ -678,6 +678,33 @@ def verifyPublicKey {SK PK} (S : SigScheme SK PK) (alg : String) (kind : KeyKind
   | .err e => .err e
   | .panic w => .panic w
 
+/-- An abstract public-key encryption scheme as the stdlib presents it to the helpers
+(`rand` = the randomness `rand.Reader` supplies). -/
+structure PkeScheme (SK PK : Type) where
+  pub : SK → PK
+  enc : PK → (msg label rand : Bytes) → Outcome Bytes
+  dec : SK → (ct label : Bytes) → Outcome Bytes
+
+/-- Decryption with the private key inverts encryption under the matching public key. -/
+def PkeScheme.Lawful {SK PK} (S : PkeScheme SK PK) : Prop :=
+  ∀ sk m l r c, S.enc (S.pub sk) m l r = .ok c → S.dec sk c l = .ok m
+
+/-- `EncryptPublicKey` after `key.PublicKey()`, dispatch and the key-kind guard. -/
+def encryptPublicKey {SK PK} (S : PkeScheme SK PK) (alg : String) (kind : KeyKind) (pk : PK)
+    (msg label rand : Bytes) : Outcome Bytes :=
+  match asymOutcome "EncryptPublicKey" alg kind with
+  | .ok () => S.enc pk msg label rand
+  | .err e => .err e
+  | .panic w => .panic w
+
+/-- `DecryptPrivateKey` after dispatch and the key-kind guard. -/
+def decryptPrivateKey {SK PK} (S : PkeScheme SK PK) (alg : String) (kind : KeyKind) (sk : SK)
+    (ct label : Bytes) : Outcome Bytes :=
+  match asymOutcome "DecryptPrivateKey" alg kind with
+  | .ok () => S.dec sk ct label
+  | .err e => .err e
+  | .panic w => .panic w
+
 /-- `Encrypt`: the top-level switch routes the name to the symmetric or the public-key entry. -/
 def encryptRoute (alg : String) : Option String := (lookupSwitch Generated.C03.sw_Encrypt alg).map (·.1)
 def decryptRoute (alg : String) : Option String := (lookupSwitch Generated.C03.sw_Decrypt alg).map (·.1)
